@@ -188,7 +188,8 @@ class SimTransport:
         if not end.alive or self.disconnecting:
             return
         self.disconnecting = 1
-        end.read_stopped = True
+        if not end.net.read_after_lose:
+            end.read_stopped = True
         end.maybe_finish_close()
 
     def abortConnection(self):
@@ -381,6 +382,10 @@ class Net:
         self.host_mode = {}         # host -> "ok" | "refuse" | "hang"
         self.port_mode = {}         # port -> "ok" | "refuse" | "hang"
         self.high_water = 2 ** 16
+        # ITransport variant (TLS-like / wrapped transports): inbound data keeps
+        # being delivered between loseConnection() and connectionLost. Kernel
+        # TCP under Twisted stops reading at once (default)
+        self.read_after_lose = False
         self.window = 1 << 30       # max bytes in flight per direction
         self.autoflush = True
         self.mode_for_port = {}     # port -> "message" for websocket stubs
@@ -787,6 +792,13 @@ class Sim:
                 if end.lost_pending is not None:
                     evs.append((w["lost"], "lost", end))
                     any_io = True
+                    if not (net.read_after_lose and not end.read_stopped and
+                            end.transport.disconnecting and link.up and
+                            len(end.inflight) and not end.read_paused):
+                        continue
+                    # (read_after_lose) the orderly close we asked for has not
+                    # been reported yet: what is in flight may still arrive
+                    evs.append((w["deliver"], "deliver", end))
                     continue
                 if end.read_stopped or end.protocol is None:
                     if len(end.inflight):
